@@ -58,16 +58,19 @@ def gen_circ(rng, m, depth, max_ops, malformed=False):
     return {"circ": m, "lead": lead, "ops": ops}
 
 
+_LEAF_BUILDER = [gens.build_leaf]
+
+
 def build(expr):
     """-> (perceval object, lean json).  Raises what the real API raises."""
     import perceval as pcvl
     if "leaf" in expr:
-        obj = gens.build_leaf(expr["leaf"])
+        obj = _LEAF_BUILDER[0](expr["leaf"])
         return obj, {"leaf": obj.m, "U": gens.leaf_matrix_json(obj)}
     m = expr["circ"]
     lops = []
     if expr.get("lead") is not None:
-        c = gens.build_leaf(expr["lead"])
+        c = _LEAF_BUILDER[0](expr["lead"])
         lops.append({"add": 0, "merge": False, "c": {"leaf": c.m, "U": gens.leaf_matrix_json(c)}})
     else:
         c = pcvl.Circuit(m)
@@ -148,18 +151,27 @@ def observe(expr):
     again = [np.array(c.compute_unitary(), dtype=complex) for _ in range(2)]
     u_last = again[-1]
     flat = [[r[0], len(r)] for r, _ in c]
-    return {"U": u_last, "U_first": u, "flat": flat, "lean": lj, "m": c.m}
+    out = {"U": u_last, "U_first": u, "flat": flat, "lean": lj, "m": c.m}
+    if expr.get("symbolic"):
+        # the symbolic computation (what `.U` reports) evaluated numerically must be the same matrix
+        try:
+            sym = c.compute_unitary(use_symbolic=True)
+            out["U_sym"] = np.array([[complex(x) for x in row] for row in sym.tolist()], dtype=complex)
+        except Exception as e:   # an exception of the real code on a legal circuit is a finding, not a harness crash
+            out["U_sym_err"] = f"{type(e).__name__}: {str(e)[:150]}"
+    return out
 
 
-def lean_program_of(expr):
-    """Lean program for a spec the real API rejects (leaf matrices still come from the real leaves)."""
+def lean_program_of(expr, pick=lambda leaf: leaf):
+    """Lean program of a spec, leaf matrices taken from freshly built leaves (`pick` chooses which variant of a
+    leaf spec is in force: used for leaves bound to variable parameters)."""
     def go(e):
         if "leaf" in e:
-            obj = gens.build_leaf(e["leaf"])
+            obj = gens.build_leaf(pick(e["leaf"]))
             return {"leaf": obj.m, "U": gens.leaf_matrix_json(obj)}
         ops = []
         if e.get("lead") is not None:
-            obj = gens.build_leaf(e["lead"])
+            obj = gens.build_leaf(pick(e["lead"]))
             ops.append({"add": 0, "merge": False, "c": {"leaf": obj.m, "U": gens.leaf_matrix_json(obj)}})
         for op in e["ops"]:
             if op["op"] == "barrier":
@@ -216,6 +228,15 @@ def judge(chk, expr, lean_reply=None):
         return ("violation", "matrix-changes-on-reevaluation",
                 f"compute_unitary() called again on the same circuit returns a different matrix (max diff "
                 f"{float(np.max(np.abs(obs['U_first'] - obs['U']))):.3g})", {"program": expr})
+    if "U_sym_err" in obs:
+        return ("violation", "symbolic-matrix-raises", "compute_unitary(use_symbolic=True) raised " + obs["U_sym_err"],
+                {"program": expr})
+    if "U_sym" in obs:
+        spec_u = oracle_matrix(obs["lean"]) if obs["lean"].get("ops") else np.eye(obs["m"], dtype=complex)
+        if obs["U_sym"].shape != spec_u.shape or not np.allclose(obs["U_sym"], spec_u, rtol=1e-7, atol=1e-7):
+            return ("violation", "symbolic-matrix-not-product",
+                    "the symbolic matrix (compute_unitary(use_symbolic=True), what .U reports) evaluated numerically "
+                    "differs from the ordered product of the embedded leaf matrices", {"program": expr})
     rep = lean_reply if lean_reply is not None else chk.lean.ask(obs["lean"])
     if "err" in rep:
         return ("violation", "accepts-inadmissible-program",
@@ -407,16 +428,127 @@ def handle_history(chk, hist):
     chk.fail(kind, sig, what, replay)
 
 
+# ------------------------------------------------------------------------------------------------
+# circuits whose leaves are bound to variable parameters that receive (new) values after assembly
+# ------------------------------------------------------------------------------------------------
+def strip_for_params(rng, e, counter):
+    """no copy (a copy legitimately detaches parameters), no leading leaf; BS/PS leaves get two alternative angle sets"""
+    if "leaf" in e:
+        leaf = e["leaf"]
+        if leaf["t"] in ("BS", "PS") and rng.random() < 0.7:
+            alts = []
+            for _ in range(2):
+                a = gens.gen_leaf(rng, 2, kinds=(leaf["t"],))
+                if leaf["t"] == "BS":
+                    a["conv"] = leaf["conv"]
+                alts.append(a)
+            leaf["alts"] = alts
+            leaf["id"] = counter[0]
+            counter[0] += 1
+        return e
+    e["lead"] = None
+    e["ops"] = [op for op in e["ops"] if op["op"] != "copy"]
+    for op in e["ops"]:
+        if "c" in op:
+            strip_for_params(rng, op["c"], counter)
+    return e
+
+
+def run_param_program(chk, expr, count=True):
+    import perceval as pcvl
+    from perceval.components import BS, PS
+    from perceval.components.unitary_components import BSConvention
+    setters = []
+
+    def builder(spec):
+        if "alts" not in spec:
+            return gens.build_leaf(spec)
+        i = spec["id"]
+        if spec["t"] == "PS":
+            ps = {"phi": pcvl.P(f"v{i}_phi")}
+            obj = PS(ps["phi"])
+        else:
+            ps = {k: pcvl.P(f"v{i}_{k}") for k in ("theta", "tl", "bl", "tr", "br")}
+            obj = BS(theta=ps["theta"], phi_tl=ps["tl"], phi_bl=ps["bl"], phi_tr=ps["tr"], phi_br=ps["br"],
+                     convention=BSConvention[spec["conv"]])
+
+        def setter(alt):
+            for k, par in ps.items():
+                par.set_value((2 if k == "theta" else 1) * gens.cs_angle(alt[k]))
+        setters.append((spec, setter))
+        return obj
+
+    _LEAF_BUILDER[0] = builder
+    try:
+        # leaf matrices requested at build time would need values: give every variable its first value as soon as
+        # the leaf exists, then assemble; values are set AGAIN (same, then different) after assembly
+        def builder0(spec):
+            obj = builder(spec)
+            if "alts" in spec:
+                setters[-1][1](spec["alts"][0] if expr.get("values_before_assembly") else spec["alts"][0])
+            return obj
+        _LEAF_BUILDER[0] = builder0
+        c, _ = build(expr)
+    finally:
+        _LEAF_BUILDER[0] = gens.build_leaf
+    for rnd in (0, 1):
+        for spec, setter in setters:
+            setter(spec["alts"][rnd])
+        lj = lean_program_of(expr, pick=lambda leaf: leaf["alts"][rnd] if "alts" in leaf else leaf)
+        try:
+            u = np.array(c.compute_unitary(), dtype=complex)
+        except Exception as e:
+            return ("violation", "parametrised-circuit-raises",
+                    f"compute_unitary() raised {type(e).__name__}: {str(e)[:120]} on a circuit whose parameters all have values",
+                    {"param_program": expr, "round": rnd})
+        spec_u = oracle_matrix(lj) if lj["ops"] else np.eye(expr["circ"], dtype=complex)
+        if count and rnd == 1:
+            chk.branch("param-value-changed-after-assembly")
+        if not np.allclose(u, spec_u, rtol=core.TOL, atol=core.TOL):
+            return ("violation", "matrix-ignores-parameter-value",
+                    f"after setting the variable parameters ({'new' if rnd else 'first'} values) compute_unitary() differs "
+                    f"from the ordered product of the leaves at those values by {float(np.max(np.abs(u - spec_u))):.3g}",
+                    {"param_program": expr, "round": rnd})
+        rep = chk.lean.ask(lj)
+        if "err" in rep or not np.allclose(u, np.array(core.unmat(rep["U"]), dtype=complex), rtol=core.TOL, atol=core.TOL):
+            return ("broken", "model-vs-code", "Lean model and implementation disagree on a parametrised circuit but the "
+                    "direct oracle holds", {"param_program": expr, "round": rnd})
+    return None
+
+
+def handle_param_program(chk, expr):
+    nvar = [0]
+
+    def cnt(e):
+        if "leaf" in e:
+            nvar[0] += 1 if "alts" in e["leaf"] else 0
+            return
+        for op in e["ops"]:
+            if "c" in op:
+                cnt(op["c"])
+            if op["op"] == "mm":
+                chk.branch("param-matmul")
+    cnt(expr)
+    res = run_param_program(chk, expr)
+    chk.case(("P", json.dumps(expr, sort_keys=True)[:2000]), nontrivial=nvar[0] >= 1 and nested_nonzero(expr),
+             sample={"param_program": {"m": expr["circ"], "variables": nvar[0]}})
+    if res is not None:
+        chk.fail(*res)
+
+
 def run(chk: core.Check):
     chk.rule = ("random construction programs (add int/tuple/list range, merge yes/no/default, //, //(i,c), @, "
                 "barrier, copy, leaf-started circuits, nested sub-circuits; 10% with one inadmissible range); "
                 "distinct = distinct (sizes, offsets, operations, nesting) signatures; non-trivial = contains a "
                 "nested sub-circuit attached at a non-zero offset somewhere; every circuit is evaluated three times; "
                 "plus histories over a pool of circuits nested by reference/merged/copied which keep growing and are "
-                "re-evaluated in between (non-trivial = at least one nest by reference)")
+                "re-evaluated in between (non-trivial = at least one nest by reference); a share of small circuits is also "
+                "evaluated symbolically (what .U reports); plus circuits whose BS/PS leaves are bound to variable parameters "
+                "that receive values, and then other values, after assembly")
     chk.assumptions = ["leaf matrices are taken from each leaf's own compute_unitary() (their correctness is C14)"]
     chk.required_branches = ["merge", "nest", "floordiv", "matmul", "barrier", "copy", "lead-leaf", "rejected",
-                             "hist-nest-by-reference", "hist-merge", "hist-reevaluated-after-growth"]
+                             "hist-nest-by-reference", "hist-merge", "hist-reevaluated-after-growth",
+                             "symbolic", "param-value-changed-after-assembly", "param-matmul"]
     chk.lean = core.LeanDriver("C01")
     rng = chk.rng
     n = chk.pick(500, 8000)
@@ -430,11 +562,18 @@ def run(chk: core.Check):
     for i in range(n):
         m = rng.randint(1, max_m)
         expr = gen_circ(rng, m, rng.randint(0, max_depth), rng.randint(1, max_ops), malformed=(rng.random() < 0.1))
+        if m <= 4 and rng.random() < chk.pick(0.35, 0.1):
+            expr["symbolic"] = True
+            chk.branch("symbolic")
         batch.append(expr)
     for expr in batch:
         handle(chk, expr)
     for _ in range(chk.pick(120, 1500)):
         handle_history(chk, gen_history(rng, rng.randint(2, 4), rng.randint(6, chk.pick(16, 30)), chk.pick(5, 7)))
+    for _ in range(chk.pick(150, 1500)):
+        m = rng.randint(2, 5)
+        e = gen_circ(rng, m, rng.randint(0, 2), rng.randint(2, 8))
+        handle_param_program(chk, strip_for_params(rng, e, [0]))
 
 
 def count_ops(chk, e):
@@ -484,6 +623,9 @@ def load_corpus():
 def replay(chk, data):
     chk.lean = core.LeanDriver("C01")
     chk.rule = "replay of one stored program"
+    if "param_program" in data["replay"]:
+        handle_param_program(chk, data["replay"]["param_program"])
+        return
     if "history" in data["replay"]:
         handle_history(chk, data["replay"]["history"])
         return
